@@ -401,8 +401,10 @@ func ruleWriters(p *Program, r *Report, fieldSpec string, allowed map[string]str
 	seen := map[string]fieldAccess{}
 	for _, a := range p.progFor(fv.Pkg().Path()).fieldAccesses(fv) {
 		if a.write {
-			if _, ok := seen[funcName(a.fn)]; !ok {
-				seen[funcName(a.fn)] = a
+			for _, o := range p.progFor(fv.Pkg().Path()).attribute(a.fn, 0) {
+				if _, ok := seen[funcName(o)]; !ok {
+					seen[funcName(o)] = a
+				}
 			}
 		}
 	}
@@ -447,8 +449,10 @@ func ruleCallers(p *Program, r *Report, callee string, allowed map[string]string
 				ops = in.Operands(ops)
 				for _, op := range ops {
 					if *op == ssa.Value(target) {
-						if _, ok := seen[funcName(fn)]; !ok {
-							seen[funcName(fn)] = in.Pos()
+						for _, o := range pp.attribute(fn, 0) {
+							if _, ok := seen[funcName(o)]; !ok {
+								seen[funcName(o)] = in.Pos()
+							}
 						}
 					}
 				}
